@@ -356,7 +356,7 @@ func (g *gen) randomCreate(final bool) {
 	if g.rng.Intn(2) == 0 {
 		o.scope = g.kind()
 	}
-	o.minconf = []int{0, 0, 1, 1, 1, 2, 6}[g.rng.Intn(7)]
+	o.minconf = []int{0, 0, 1, 1, 1, 2, 6, 6, 101, 150}[g.rng.Intn(10)]
 	o.rate = []int64{1000, 1000, 2500, 10000, 50000, 253}[g.rng.Intn(6)]
 	switch x := g.rng.Intn(100); {
 	case x < 25:
@@ -638,6 +638,10 @@ func (g *gen) scenCoinbase() core.Case {
 	g.add(fmt.Sprintf("tipahead n=%d", 98-gap))
 	g.simpleCreate("dry", 0, "any", 1, v/2, nil) // confs = 100 : mature
 	g.simpleCreate("dry", 0, "any", 100, v/2, nil)
+	// mature coinbase, but fewer confirmations than the request demands: minconf still applies
+	g.simpleCreate("dry", 0, "any", 101, v/2, nil)
+	g.simpleCreate("dry", 0, "any", 150+g.rng.Intn(100), v/2, []string{name + ":0"})
+	g.simpleCreate([]string{"dry", "simple", "psbt"}[g.rng.Intn(3)], 0, "any", 101+g.rng.Intn(200), v/3, nil)
 	g.simpleCreate("send", 0, "any", 1, v/2, []string{name + ":0"})
 	g.add("state")
 	g.add("tipahead n=1")
@@ -843,6 +847,38 @@ func (g *gen) scenDoubleSpend() core.Case {
 	return g.finish("double-spend")
 }
 
+// sends without a change output and without any output to the wallet itself: nothing of the transaction pays the
+// wallet, yet its inputs are spent; later requests must not touch them
+func (g *gen) scenChangeless() core.Case {
+	g.start()
+	n := g.newName()
+	k1, k2, k3 := g.kind(), g.kind(), g.kind()
+	v1, v2, v3 := g.amount(200000, 900000), g.amount(200000, 900000), g.amount(100000, 150000)
+	g.add(fmt.Sprintf("recv tx=%s outs=%s:0:%d,%s:0:%d,%s:0:%d", n, k1, v1, k2, v2, k3, v3))
+	g.add("block txs=" + n)
+	g.add("state")
+	cls := []string{"accepted", "accepted", "mempool"}[g.rng.Intn(3)]
+	// output = coin - 400: what is left after the fee is below the dust limit of a P2TR change output
+	g.create(createOpt{api: "send", acct: 0, scope: "any", chg: "same", minconf: 1, rate: 1000, strat: "largest",
+		outs: []string{fmt.Sprintf("x%s:%d", g.kind(), v1-400)}, sel: []string{n + ":0"}, ans: g.ans.pick(g.rng, cls)})
+	g.tag("changeless-send")
+	g.add("state")
+	g.simpleCreate("dry", 0, "any", 0, v2/2, []string{n + ":0"})                 // explicit reuse: refused
+	g.simpleCreate("simple", 0, "any", 0, v2+v3-2000, nil)                       // needs both remaining coins, not the spent one
+	g.simpleCreate("send", 0, "any", 0, v1/2+v2/2+v3/2, nil)                     // more than what is left: insufficient
+	g.add("state")
+	g.simpleCreate("send", 0, "any", 0, v2/3, nil)
+	g.add("state")
+	if g.rng.Intn(2) == 0 {
+		g.add("restart")
+	} else {
+		g.add("resync")
+	}
+	g.simpleCreate("dry", 0, "any", 0, v3/2, []string{n + ":0"})
+	g.add("state")
+	return g.finish("changeless")
+}
+
 func (engine) Generate(rng *rand.Rand, tier string) []core.Case {
 	g := &gen{rng: rng, ans: buildAnswers()}
 	nWalk, nScen, walkLen := 140, 12, 28
@@ -852,7 +888,7 @@ func (engine) Generate(rng *rand.Rand, tier string) []core.Case {
 	var cases []core.Case
 	for i := 0; i < nScen; i++ {
 		cases = append(cases, g.scenCoinbase(), g.scenLocks(), g.scenSelection(), g.scenChain(), g.scenAnswers(),
-			g.scenReorg(), g.scenDoubleSpend())
+			g.scenReorg(), g.scenDoubleSpend(), g.scenChangeless())
 	}
 	for i := 0; i < nWalk; i++ {
 		cases = append(cases, g.randomWalk(walkLen))
